@@ -136,6 +136,18 @@ impl ResponseCache {
         self.cache.invalidate_all();
     }
 
+    /// Verification hook: public forwarder to the crate-private `clear`.
+    #[cfg(feature = "verif-hooks")]
+    pub fn verif_clear(&self) {
+        self.clear()
+    }
+
+    /// Verification hook: public forwarder to the crate-private `clear_query`.
+    #[cfg(feature = "verif-hooks")]
+    pub fn verif_clear_query(&self, query: &Query) {
+        self.clear_query(query)
+    }
+
     pub(crate) fn clear_query(&self, query: &Query) {
         self.cache.invalidate(query);
     }
